@@ -204,7 +204,9 @@ def more_families(chk, rng, evs):
 
     # 4. other objects that hold bytes: payloads given as bytearray / memoryview, datagrams decoded from them, a
     #    bytearray payload changed in place between two encodings of one packet
-    for rep in range(chk.pick(120, 4000)):
+    # (taken out again: the documented type of `data` and of a datagram is `bytes`; an implementation that keys a
+    #  memo on the immutable payload, or concatenates it, is within the documentation - DESIGN 11a, sixth session)
+    for rep in range(0):
         scp = rng.random() < 0.6
         kw = rand_kw(scp)
         kind = rng.choice((bytearray, bytearray, memoryview))
@@ -396,8 +398,8 @@ def run(chk):
                 "values) with all other fields all-zeros and all-ones, SDP and SCP; 0-3 arguments x payload lengths "
                 "0..16 x random headers; raw datagrams of length 14..30 decoded with n_args 0..3; payloads of 255..273, "
                 "1024, 1472 and 65497 bytes; decoded packets encoded again, unchanged and after assignments; "
-                "constructors called positionally / with optional parameters left out; bytearray and memoryview "
-                "payloads and datagrams, a bytearray payload changed in place between encodings; 2-5 packets alive "
+                "constructors called positionally / with optional parameters left out; "
+                "2-5 packets alive "
                 "at once with results read after all calls; enum commands; n_args by keyword, position and default; "
                 "distinct = distinct constructor arguments / datagram bytes")
     chk.exhaustive = False
